@@ -1049,6 +1049,9 @@ impl<'a> GeneratorState<'a> {
                             .syntax_error("Function must return a value", pos));
                     } else {
                         self.generate_assign(&ExprType::A(f.return_signed), &e, pos, false)?;
+                        // The value is in A now: do the postponed ++/-- and give Y back
+                        // before leaving, not after the RTS
+                        self.purge_deferred_plusplus_and_savey()?;
                     }
                 } else {
                     if e != ExprType::Nothing {
